@@ -693,6 +693,51 @@ def op_stock_compute(st, op, info):
     call(st, op, lambda: stock.compute(), info)
 
 
-HANDLERS = {"stock_compute": op_stock_compute, "lifetime": op_lifetime, "mk": op_mk, "arith": op_arith, "reduce": op_reduce, "slice": op_slice, "setitem": op_setitem,
+def op_system(st, op, info):
+    """build an MFASystem from pooled arrays (as flows / parameters) and export it (C15: building systems and exporting change no input)"""
+    from flodym import MFASystem, Flow, make_processes
+    from flodym.export.data_writer import convert_to_dict
+    info.kind = "system:" + op.get("then", "build")
+    base = [i for i, w in enumerate(st.world["dims"]) if w["of"] is None and not w.get("twin")]
+    ds = DimensionSet(dim_list=[st.D[i] for i in base])
+    ok = [a for a in st.pool if all(l in ds.letters and dims_sig(a.dims)[[d.letter for d in a.dims].index(l)] == dims_sig(ds)[list(ds.letters).index(l)]
+                                    for l in a.dims.letters) and isinstance(a.values, np.ndarray)]
+    if not ok:
+        return
+    procs = make_processes(["sysenv", "use", "waste"])
+    names = ["sysenv", "use", "waste"]
+    flows, params = {}, {}
+    for n, a in enumerate(ok[:4]):
+        info.inputs.append(a)
+        if n % 2 == 0:
+            f = Flow(dims=a.dims, values=a.values, name=f"f{n}", from_process=procs[names[n % 3]], to_process=procs[names[(n + 1) % 3]])
+            flows[f.name] = f
+        else:
+            params[f"p{n}"] = Parameter(dims=a.dims, values=a.values, name=f"p{n}")
+    if not flows:
+        return
+    info.dims_passed = [ds]
+    info.raw.append(("dimset", ds, dims_sig(ds), lambda s_, o: dims_sig(o) == s_))
+
+    def thunk():
+        sys_ = MFASystem(dims=ds, parameters=params, processes=procs, flows=flows, stocks={})
+        then = op.get("then", "build")
+        if then == "dict_numpy":
+            convert_to_dict(sys_, type="numpy")
+        elif then == "dict_pandas":
+            convert_to_dict(sys_, type="pandas")
+        elif then == "new_array":
+            info.results = [sys_.get_new_array(dim_letters=tuple(ds.letters[:2]))]
+        elif then == "check":
+            sys_.check_mass_balance(raise_error=False)
+            sys_.check_flows()
+        return sys_
+    call(st, op, thunk, info)
+    st.probe("system_built_from_pooled_arrays_" + info.outcome)
+    if info.outcome != "ret":
+        info.results = []
+
+
+HANDLERS = {"system": op_system, "stock_compute": op_stock_compute, "lifetime": op_lifetime, "mk": op_mk, "arith": op_arith, "reduce": op_reduce, "slice": op_slice, "setitem": op_setitem,
             "set_values": op_set_values, "inplace_unary": op_inplace_unary, "df": op_df, "split": op_split_stack,
             "stack": op_split_stack, "stock": op_stock}
